@@ -562,6 +562,7 @@ def run_async_server(spec, *, horizon=20000.0, max_steps=800_000, probes=0, stri
         rec = {'rid': rid, 'timeout': step['timeout'], 'bp': step['bp'], 't0': time.monotonic(), 'backlog_before': server.backlog, 'cycle': 0}
         try:
             if step.get('cancel_after') is not None:
+                rec['untimed'] = True  # the harness itself sleeps between t0 and the outcome
                 task = asyncio.ensure_future(server.call(value(rid), timeout=to, backpressure=step['bp']))
                 await asyncio.sleep(step['cancel_after'])
                 task.cancel()
